@@ -158,9 +158,53 @@ def run(ctx):
                                 vals = {dict(ExA._step_state(bb, st_)).get(c_) for st_ in ExA.state_at.get(bb, [])}
                                 if vals == {1}:
                                     known_some = True
+                    if not known_some and op_["k"] in ("move", "copy") and not op_["p"]["proj"]:
+                        # with the clock never answering 'elapsed' (and a non-zero duration) the Option handed back here is Some: whatever
+                        # None it can carry was put there behind the deadline test (`break None` out of the loop, then `Ok(outcome)`)
+                        def af_ne(t_):
+                            if not t_:
+                                return None
+                            if is_deadline_cmp(t_) or is_deadline_cmp(M.noref(t_)):
+                                return 0
+                            n_ = M.noref(t_)
+                            if n_[0] == "call" and n_[1] == "std::time::Duration::is_zero" and M.noref(n_[2][0]) == durp:
+                                return 0
+                            return None
+                        # (follow the value through every local it is moved through on any path)
+                        srcs, todo = [], [chain[-1]]
+                        while todo and len(srcs) < 12:
+                            x_ = todo.pop()
+                            if x_ in srcs or x_ <= owt.arg_count:
+                                continue
+                            srcs.append(x_)
+                            for (_, _, r_) in owt.defs().get(x_, []):
+                                if r_["k"] == "use" and r_["op"]["k"] in ("move", "copy") and not r_["op"]["p"]["proj"]:
+                                    todo.append(r_["op"]["p"]["l"])
+                        ExN = M.Explore(owt, assume_fn=af_ne, tracked=[c_ for c_ in dict.fromkeys(chain + srcs) if c_ > owt.arg_count])
+                        for c_ in chain:
+                            if c_ in ExN.tracked and bb in ExN.blocks:
+                                vals = set()
+                                for st_ in ExN.state_at.get(bb, []):
+                                    v_ = dict(ExN._step_state(bb, st_)).get(c_)
+                                    vals.add(v_.vidx if isinstance(v_, M.EV) else v_)
+                                if vals == {1}:
+                                    known_some = True
+                        if bb not in ExN.blocks:
+                            known_some = True
                     ctx.ob("R11.3", "computed-status-only-for-zero-duration", known_some or (bool(zero_e) and dominated_by_edges(owt, bb, zero_e)), owt.loc(bb, si),
                            "Ok(%s) returns an Option that is not built here: it can be None ('still running') although the deadline test has not run; "
                            "allowed only under `dur.is_zero()` — a test such as as_millis() == 0 also admits every sub-millisecond duration" % M.term_str(pay)[:80])
+    # (`break None` out of the loop with `Ok(outcome)` behind it is an Ok(None) return as well)
+    ret_ty = owt.locals[0]["ty"]
+    for bb in sorted(owt.live_blocks()):
+        for si, s in enumerate(owt.blocks[bb]["stmts"]):
+            if s["k"] == "assign" and not s["p"]["proj"] and s["p"]["l"] != 0 and s["r"]["k"] == "agg" and s["r"].get("adt") == "std::option::Option" and s["r"]["variant"] == "None" \
+                    and "ExitStatus" in (owt.locals[s["p"]["l"]]["ty"] or "") and (bb, si) not in none_blocks:
+                # ... unless it is the temporary of a literal Ok(None) already counted
+                used_in_ok = any(s2["k"] == "assign" and s2["p"]["l"] == 0 and s2["r"]["k"] == "agg" and s2["r"].get("variant") == "Ok" and s2["r"]["ops"] and
+                                 s2["r"]["ops"][0]["k"] in ("move", "copy") and s2["r"]["ops"][0]["p"]["l"] == s["p"]["l"] for s2 in owt.blocks[bb]["stmts"])
+                if not used_in_ok and not owt.blocks[bb].get("inl"):
+                    none_blocks.append((bb, si))
     ctx.floor("R11.3", "Ok(None) returns", len(none_blocks), 1)
     for bb, si in none_blocks:
         ctx.ob("R11.3", "none-only-after-deadline", dominated_by_edges(owt, bb, true_edges), owt.loc(bb, si),
